@@ -144,6 +144,22 @@ CLAIMS = {
     design_ref="DESIGN.md section 5 C03",
     note="Notification order of observers within one call is outside C03. Saves are compared as JSON values.",
     technique="Lean 4 permutation-invariance theorems + source-site inventory + repeated-run oracle"),
+ "C04": dict(
+    category="proof",
+    text=("Proved: + - * and unary minus wrap to 32 bits (wrapI32 is the unique in-range representative), / and % are "
+          "defined exactly when the divisor is non-zero and the quotient fits and fault with an error otherwise, all "
+          "integer results stay in the i32 range, EVERY native call on values or void is panic-free (wrong types, "
+          "arity, void, casts surface as errors), evaluation-stack pops never panic, an error raised by a step is "
+          "recorded, stops the story and is reported (Err without handler, callback with one), and resetting after "
+          "an error gives exactly the fresh story. NOT proved (partial): panic-freedom of the whole interpreter for "
+          "every compiler-accepted program — the model keeps ~39 panic sites mirroring Rust unwraps that are "
+          "unreachable only under invariants of compiler output; these are decided by the oracle: fault-prone "
+          "expression trees, fault-prone generated programs, reproducers of past panics and token-level mutants of "
+          "the conformance corpus under random histories, on debug and release builds (no panic, faults reported, "
+          "reset = fresh, profiles agree), and by the tie (a model panic site reached = a code panic)."),
+    design_ref="DESIGN.md section 5 C04",
+    note="As C09. Programs on which the compiler itself fails are outside C04 (C06).",
+    technique="Lean 4 theorems over the operator / error-delivery model (partial) + differential correspondence + fault-injection oracle on two build profiles"),
 }
 
 REASONS_PENDING = "check not built yet in this revision of /verif (see DESIGN.md section 9.1 for the order of work)"
